@@ -186,6 +186,21 @@ def fromCtc (ds : Dataset) : Outcome Out :=
   | .keyError => .keyError
   | .indexError => .indexError
 
+/-! ### shape of the exported segmentation array -/
+
+/-- `n_1_padding = (1,) * (5 - frame.ndim - 1)` when `tczyx` else `()` (a negative count is the
+empty tuple in Python, truncated subtraction here) -/
+def n1Padding (frameShape : List Nat) (tczyx : Bool) : List Nat :=
+  if tczyx then List.replicate (5 - frameShape.length - 1) 1 else []
+
+/-- `shape=(len(sorted_files), *n_1_padding, *frame.shape)` -/
+def segShape (nFiles : Nat) (frameShape : List Nat) (tczyx : Bool) : List Nat :=
+  nFiles :: (n1Padding frameShape tczyx ++ frameShape)
+
+/-- `chunks=(1, *n_1_padding, *frame.shape)` -/
+def segChunks (frameShape : List Nat) (tczyx : Bool) : List Nat :=
+  1 :: (n1Padding frameShape tczyx ++ frameShape)
+
 /-! ### Bool decider of the *consistency* hypothesis of the C15 theorems (proved equivalent to the
 `Prop` in `GeffProofs/CtcBridge.lean`; the harness cross-checks its own notion against it) -/
 
